@@ -302,10 +302,13 @@ def c15(prop, tier, seed, wd, explore, limit, kinds, we):
 @register("C14")
 def c14(prop, tier, seed, wd, explore, limit, kinds, we):
     cases = P.basic_cases(prop, seed, tier, ops=("history", "meta"), per_input_states=2, max_n=2000, n_random=30 if tier == "quick" else 300)
+    for i, c in enumerate(cases):   # every other case next to a different dictionary of the same kind that is searched first
+        if i % 2 == 1 and c.state not in ("cold", "coldgen"):
+            c.extra = tuple(c.extra) + ("--neighbour",)
     def nt(case, cnt):
         return len(case.S) >= 2 and cnt.get("eval.history_call", 0) >= 50
     return dict_check(prop, tier, seed, wd, explore, limit, kinds, we, cases, RULE_BASE + "; a seeded history of >=50 calls ran with repeats, failed lookups and interleaved iterators", nontrivial=nt,
-                      required=("op_repeated", "iter_interleaved", "failed_lookup"))
+                      required=("op_repeated", "iter_interleaved", "failed_lookup", "neighbour_dictionary", "survives_copy_destruction"))
 
 @register("C16")
 def c16(prop, tier, seed, wd, explore, limit, kinds, we):
@@ -651,6 +654,12 @@ def c11(prop, tier, seed, wd, explore, limit, kinds, we):
             continue
         for rep in range(2 if tier == "quick" else 4):   # race reports vary run to run: repeat
             cases.append(PoolCase("blocks", "tsan", gen.splitmix(seed, 30 + rep, i), ["--schedules", str(ns), "--delay-us", str([0, 120, 300, 50][rep])] + (["--parallel-first"] if rep % 2 == 0 else []), iname, S))
+    # few big blocks (>= 16384 strings each) built at the same time: code paths that only large dictionaries take
+    r = P.rng_for(seed, prop, 8)
+    for v in range(1 if tier == "quick" else 4):
+        S = gen.norm(set(bytes(r.choice(b"abcdefgh") for _ in range(r.randint(2, 8))) for _ in range(120000 + 40000 * v)))
+        tl = sum(len(x) + 1 for x in S)
+        cases.append(PoolCase("blocks", "tsan", gen.splitmix(seed, 38, v), ["--schedules", "1" if tier == "quick" else "3", "--delay-us", "0", "--cuts", "%d,%d" % (tl // 3 + 8, tl // 4 + 8), "--threads", "4"] + (["--parallel-first"] if v % 2 else []), "bigblocks%d" % v, S))
     for k in range(8 if tier == "quick" else 32):
         cases.append(PoolCase("pool", "tsan", gen.splitmix(seed, 40, k), ["--lifecycles", str(80 if tier == "quick" else 2000), "--delay-us", str([0, 100][k % 2]), "--window", "0"]))
     if limit:
